@@ -64,7 +64,7 @@ def run(chk: Check, model):
                     bad.append((rel, "candidate and loss are selected differently"))
             chk.add("C18.best", "stored loss == min(old, new) and the candidate follows the loss", not bad, f"best-so-far update deviates: {bad}", chk.loc(fi))
         except T.NoValue as ex:
-            chk.unknown("C18.best", "update table", f"update predicate is not comparison-only: {ex}", chk.loc(fi))
+            chk.violation("C18.best", "update table", f"the best-so-far update does not decide by comparing the two losses alone ({ex}): a tolerance / extra term can keep a worse incumbent", chk.loc(fi))
     else:
         chk.add("C18.best", "best-so-far selected with where(pred, old, new)", False, f"bestsofar_loss = {T.show(bl)[:160]}", chk.loc(fi))
     # smoothing
@@ -78,6 +78,20 @@ def run(chk: Check, model):
     st = r0.ret
     ok = st[0] == "obj" and dict(st[2]).get("bestsofar_loss") == S("jax.numpy.inf") and dict(st[2]).get("bestsofar") == dict(st[2]).get("mean")
     chk.add("C18.best", "initial best loss is +inf", ok, f"init_state returns {T.show(st)[:160]}", chk.loc(fi0))
+    # cem_step: what is evaluated and what is handed to the update are exactly the clipped samples
+    f_cs = model.func("cem.cem_step")
+    chk.used(f_cs.qualname)
+    ecs = SymEval(model)
+    rcs = ecs.run_function(f_cs)
+    upd = [e for e in rcs.events if e.kind == "call" and e.name == "rex.cem.cem_update_mean_stdev"]
+    okc = len(upd) == 1 and len(upd[0].args) == 4
+    if okc:
+        smp, lss = upd[0].args[2], upd[0].args[3]
+
+        okc = smp[0] == "call" and T.call_name(smp) == "rex.cem.gaussian_samples" and smp[2][:2] == (S("solver"), S("state")) \
+            and lss[0] == "call" and T.call_name(lss) == "loss" and lss[2] and lss[2][0] == smp and upd[0].args[:2] == (S("solver"), S("state"))
+    chk.add("C18.bounds", "cem_step evaluates and updates with exactly the clipped samples", bool(okc), "cem_step must evaluate loss on, and update with, the output of vmap(gaussian_samples) itself "
+            "(a candidate written into the population afterwards bypasses the clip)", chk.loc(f_cs))
     # the optimisation loops continue from the state they are given (the best-so-far survives a continued run) and thread it through
     for q, step, carry_proj in (("cem.cem", "rex.cem.cem_step", None), ("evo.evo", "rex.evo.evo_step", 0)):
         fl = model.func(q)
@@ -145,7 +159,11 @@ def run(chk: Check, model):
     if ok:
         a, t = asks[0], tells[0]
         x, st = T.mk_index(a.term, T.ZERO), T.mk_index(a.term, T.ONE)
-        ok = len(t.args) == 4 and t.args[0] == x and t.args[2] == st and t.args[3] == S("solver.strategy_params") and a.args[2] == S("solver.strategy_params")
+        ok = len(t.args) == 4 and t.args[0] == x and t.args[2] == st and t.args[3] == S("solver.strategy_params")
+        # the clip bounds live in the strategy params: ask() must get them, otherwise the proposals are not clipped at all
+        pa = a.args[2] if len(a.args) > 2 else dict(a.kwargs).get("params", T.NONE)
+        chk.add("C18.bounds", "evo: candidates are asked with the solver's strategy params (the clip bounds)", pa == S("solver.strategy_params"),
+                f"ask is called with params = {T.show(pa)[:80]}, expected solver.strategy_params (evosax falls back to unbounded default params)", chk.loc(fi, a.node))
         chk.add("C18.nan", "evo: tell gets the asked population and state", ok, f"tell is called with {[T.show(z)[:60] for z in t.args]}", chk.loc(fi, t.node))
         fit = t.args[1] if len(t.args) > 1 else T.NONE
         okf = fit[0] == "call" and T.call_name(fit) == "jax.numpy.where" and len(fit[2]) == 3 and fit == _nan_to_inf(fit[2][2]) and fit[2][2][0] == "call" and fit[2][2][2] and fit[2][2][2][0] == x
